@@ -61,7 +61,10 @@ func (x *Ctx) containerFresh(r *core.Result, rs *core.RuleStat, fname, field, tr
 						}
 						mk = t
 					default:
-						r.Fail(rs, key+":assign", w.Pos(t.Pos()), "the container field is assigned something other than a fresh make (a container from an earlier call could be reused and mutated)")
+						// clearing the field (moving the finished container out of the reader) cannot bring an old container back
+						if !isNilConst(t.Val) {
+							r.Fail(rs, key+":assign", w.Pos(t.Pos()), "the container field is assigned something other than a fresh make (a container from an earlier call could be reused and mutated)")
+						}
 					}
 				}
 			case *ssa.Call:
@@ -121,6 +124,9 @@ func (x *Ctx) containerFresh(r *core.Result, rs *core.RuleStat, fname, field, tr
 				// spilled named result (defer): every value ever stored into it
 				for _, ref := range *al.Referrers() {
 					if s, isS := ref.(*ssa.Store); isS && s.Addr == ssa.Value(al) {
+						if l2, isL := s.Val.(*ssa.UnOp); isL && l2.X == ssa.Value(al) {
+							continue // `return val, …` with val the named result itself
+						}
 						vals = append(vals, s.Val)
 					}
 				}
@@ -284,6 +290,13 @@ func (x *Ctx) containerWriters(r *core.Result, rs *core.RuleStat, st *types.Stru
 					rs.OK(1)
 					continue
 				}
+				if st0, isSt := ins.(*ssa.Store); isSt && kind == "make" && x.onlyWhenFieldNil(st0) {
+					// a fresh container made only when the reader holds none: nothing under construction is replaced
+					// and nothing returned earlier is touched
+					rs.OK(1)
+					rs.Sample(fnKey(fn) + ":" + field + ": make only when the field is nil")
+					continue
+				}
 				k := fnKey(fn) + ":" + field
 				if allowed[k] != kind {
 					// a private helper inherits the permission of its callers when all of them have it
@@ -442,7 +455,6 @@ func (x *Ctx) fieldNeverReadStale(st *types.Struct, idx int) bool {
 	return true
 }
 
-
 // soleOwner: fn is an unexported library function all of whose (transitive, in-library) callers satisfy ok — it
 // acts on their behalf. Returns the name of one such caller, "" otherwise.
 func (x *Ctx) soleOwner(fn *ssa.Function, ok func(*ssa.Function) bool) string {
@@ -490,7 +502,6 @@ func (x *Ctx) soleOwner(fn *ssa.Function, ok func(*ssa.Function) bool) string {
 	}
 	return ""
 }
-
 
 // fieldInert: whatever is loaded from the field flows only into stores to the same field, or into results of
 // functions that the readers never call (a statistics counter read by String()): it cannot influence a result of
@@ -576,4 +587,44 @@ func (x *Ctx) fieldInert(st *types.Struct, idx int) bool {
 		}
 	}
 	return true
+}
+
+// onlyWhenFieldNil: the store `base.f = …` is reached only through the true edge of `base.f == nil` (or the false
+// edge of `base.f != nil`) on the same base object.
+func (x *Ctx) onlyWhenFieldNil(st *ssa.Store) bool {
+	fa, ok := st.Addr.(*ssa.FieldAddr)
+	if !ok {
+		return false
+	}
+	for d := st.Block(); d != nil; d = d.Idom() {
+		dom := d.Idom()
+		if dom == nil {
+			return false
+		}
+		iff, ok := dom.Instrs[len(dom.Instrs)-1].(*ssa.If)
+		if !ok {
+			continue
+		}
+		be, ok := iff.Cond.(*ssa.BinOp)
+		if !ok || (be.Op != token.EQL && be.Op != token.NEQ) || !isNilConst(be.Y) {
+			continue
+		}
+		ld, ok := be.X.(*ssa.UnOp)
+		if !ok || ld.Op != token.MUL {
+			continue
+		}
+		fa2, ok := ld.X.(*ssa.FieldAddr)
+		if !ok || fa2.Field != fa.Field || !sameObject(fa2.X, fa.X) {
+			continue
+		}
+		edge := 0
+		if be.Op == token.NEQ {
+			edge = 1
+		}
+		sc := dom.Succs[edge]
+		if (sc == d || sc.Dominates(d)) && len(sc.Preds) == 1 {
+			return true
+		}
+	}
+	return false
 }
